@@ -45,12 +45,14 @@ def jumps(kind):
     return T
 
 
-def conn_spec(kind, pa, pb, k, pts, names):
+def conn_spec(kind, pa, pb, k, pts, names, tagmap=None, geom=None):
     """blocks of the Hessian d2/dc_A dc_B of kt/2 int sum jump^2 + kr/2 int rot^2
     for A on panel pa, B on panel pb"""
     atoms = k.w.atoms
-    a = {1: S('a1'), 2: S('a2')}
-    b = {1: S('b1'), 2: S('b2')}
+    tagmap = tagmap or {1: '1', 2: '2'}
+    geom = geom or {}
+    a = {1: geom.get('a1', S('a1')), 2: geom.get('a2', S('a2'))}
+    b = {1: geom.get('b1', S('b1')), 2: geom.get('b2', S('b2'))}
     out = {}
     if kind.endswith('xcte'):
         line, meas = 'x', b[1] * C(Fr(1, 2))
@@ -78,8 +80,8 @@ def conn_spec(kind, pa, pb, k, pts, names):
             for (s2, t2, p2, f2, dx2, dy2) in terms:
                 if p2 != pb:
                     continue
-                A = lambda d: Factor('A', str(p1), f1, d)
-                B = lambda d: Factor('B', str(p2), f2, d)
+                A = lambda d: Factor('A', tagmap[p1], f1, d)
+                B = lambda d: Factor('B', tagmap[p2], f2, d)
                 if line == 'x':
                     val = S(atoms.point('x', A(dx1), pts[('x', str(p1))])) * S(atoms.point('x', B(dx2), pts[('x', str(p2))])) * \
                         S(atoms.integral('y', 'full', A(dy1), B(dy2)))
